@@ -81,6 +81,20 @@ class ExprMixin2:
                 return [(self.raise_exc(st, "AttributeError"), None)]
             if ft is None:
                 ft = ("ast", "val") if name in self.ast_field_names else None
+            if ft is None and k == "val" and cls is None and name in ("read", "readline", "seek", "tell", "seekable", "close", "write") \
+                    and ("stream", name) in self.ext_methods:
+                # a file method on a value of unknown class: a stream object has it, plain data (bytes, str, numbers, None) does not
+                out = []
+                r = Val.r(v.t)
+                for s1, is_stream in self.branch(st, z3.And(Val.is_R(v.t), st.cls_of(r) == clsid("stream")), f".{name} on a stream"):
+                    if is_stream:
+                        out.append((s1, V("bound", xs=(vref(r, cls="stream"), name))))
+                        continue
+                    for s2, is_obj in self.branch(s1, Val.is_R(v.t), f".{name} on another object"):
+                        if is_obj:
+                            raise Unsupported(f"{self.where(node)}: method .{name} on an object of unknown class")
+                        out.append((self.raise_exc(s2, "AttributeError"), None))
+                return out
             if ft is None and k == "val" and cls is None and name in ("replace", "encode", "decode", "upper"):
                 # a str / bytes method on a value of unknown kind: decided per kind of the value; anything else has no such attribute
                 out = []
